@@ -196,8 +196,117 @@ fn nested_type(t: &mut Tape) -> String {
     }
 }
 
+const M_STRUCT: &[&str] = &[
+    "a @ 1 = u8;", "required b @ 2 = string;", "c @ 3 = option<Foo>;", "d @ 4 = map<u8 -> vec<Bar>>;", "e @ 5 = [u8; N];",
+    "f @ 6 = result<unit, a::Foo>;", "a @ 4294967295 = u8;", "a @ 1 = u8;", "g @ 7 = S;",
+];
+const M_ENUM: &[&str] = &["A @ 1;", "B @ 2 = Foo;", "B @ 2;", "C @ 3 = vec<E>;", "D @ 4 = E;"];
+const M_SVC: &[&str] = &[
+    "fn f @ 1;", "fn g @ 2 = u8;", "fn h @ 3 { args = u8; ok = Foo; err = enum { A @ 1; } }", "fn i @ 4 = struct { a @ 1 = u8; }",
+    "event e @ 1;", "event e2 @ 2 = struct {}", "event e3 @ 3 = u8;", "fn h @ 3 {}", "fn j @ 5 { ok = u8; }",
+    "fn k @ 6 { args = struct { //! [Foo]\n #![rust(impl_eq)] a @ 1 = u8; x = fallback; } }", "event e4 @ 4 = enum { A @ 1; B = fallback; }",
+];
+const M_FALLBACK: &[&str] = &["x = fallback;", "fn x = fallback;", "event y = fallback;"];
+const M_OTHER: &[&str] = &[
+    "uuid = 11111111-1111-4111-8111-111111111111;", "version = 1;", "import a;", "//! inner doc [Foo]\n", "/// doc [Bar]\n",
+    "// comment\n", "#[rust(impl_copy)]", "#![rust(impl_eq,)]", "const N = u32(4);", "struct Foo {}", "args = u8;", "ok = u8;",
+    "err = u8;", "required", ";", "}", "{", "enum E {}", "service S {}", "newtype T = u8;",
+];
+
+fn member(t: &mut Tape, right: &[&'static str]) -> &'static str {
+    match t.weighted(&[40, 3, 2, 2, 2, 3]) {
+        0 => text::ps(t, right),
+        1 => text::ps(t, M_STRUCT),
+        2 => text::ps(t, M_ENUM),
+        3 => text::ps(t, M_SVC),
+        4 => text::ps(t, M_FALLBACK),
+        _ => text::ps(t, M_OTHER),
+    }
+}
+
+/// A complete top-level statement whose members are mostly - not always - of the right kind
+/// and in the right order. Returns (category, text): 0 = header doc, 1 = import, 2 = definition.
+fn statement(t: &mut Tape) -> (u8, String) {
+    let mut s = String::new();
+    let kind = t.weighted(&[4, 4, 4, 2, 2, 3, 2]);
+    if kind <= 4 && t.chance(60) {
+        s.push_str(text::ps(t, &["/// doc [Foo]\n", "// comment\n", "#[rust(impl_copy)]\n", "//! inner\n", "#![x]\n"]));
+    }
+    let body = |t: &mut Tape, right: &[&'static str], fallbacks: &[&'static str]| {
+        let mut b = String::new();
+        let n = t.below(5);
+        for _ in 0..n {
+            b.push_str("    ");
+            b.push_str(member(t, right));
+            b.push('\n');
+        }
+        if t.chance(60) {
+            b.push_str("    ");
+            b.push_str(member(t, fallbacks));
+            b.push('\n');
+            if fallbacks.len() > 1 && t.chance(80) {
+                b.push_str("    ");
+                b.push_str(member(t, fallbacks));
+                b.push('\n');
+            }
+        }
+        b
+    };
+    match kind {
+        0 => {
+            s.push_str(&format!("struct {} {{\n", text::ps(t, &["Foo", "Bar", "S"])));
+            s.push_str(&body(t, M_STRUCT, &M_FALLBACK[..1]));
+            s.push_str("}\n");
+            (2, s)
+        }
+        1 => {
+            s.push_str(&format!("enum {} {{\n", text::ps(t, &["E", "Kind", "Foo"])));
+            s.push_str(&body(t, M_ENUM, &M_FALLBACK[..1]));
+            s.push_str("}\n");
+            (2, s)
+        }
+        2 => {
+            s.push_str(&format!("service {} {{\n", text::ps(t, &["Svc", "Api"])));
+            match t.below(8) {
+                0 => s.push_str("    version = 1;\n    uuid = 11111111-1111-4111-8111-111111111111;\n"),
+                1 => s.push_str("    uuid = 11111111-1111-4111-8111-111111111111;\n"),
+                2 => s.push_str("    // c\n    uuid = 22222222-2222-4222-8222-222222222222;\n    /// d\n    version = 2;\n"),
+                _ => s.push_str("    uuid = 11111111-1111-4111-8111-111111111111;\n    version = 1;\n"),
+            }
+            s.push_str(&body(t, M_SVC, &M_FALLBACK[1..]));
+            s.push_str("}\n");
+            (2, s)
+        }
+        3 => {
+            s.push_str(text::ps(t, &["const N = u32(4);\n", "const S = string(\"x\");\n", "const U = uuid(00000000-0000-0000-0000-000000000001);\n", "const N = u8(256);\n"]));
+            (2, s)
+        }
+        4 => {
+            s.push_str(text::ps(t, &["newtype T = u8;\n", "newtype T = T;\n", "newtype A = box<A>;\n", "newtype K = map<K -> K>;\n"]));
+            (2, s)
+        }
+        5 => (1, format!("{}import {};\n", text::ps(t, &["", "", "// c\n", "/// d\n"]), text::ps(t, &["a", "b", "main", "nope"]))),
+        _ => (0, format!("{}//!{}\n", text::ps(t, &["", "", "// c\n"]), text::doc_line(t))),
+    }
+}
+
+/// Sequences of complete statements: in the grammar's order (header docs, imports,
+/// definitions) most of the time, otherwise in random order; members are sometimes of the
+/// wrong kind. These inputs sit on both sides of the grammar's boundary.
+fn statement_soup(t: &mut Tape) -> String {
+    let n = t.below(8);
+    let mut v: Vec<(u8, String)> = (0..n).map(|_| statement(t)).collect();
+    if t.chance(150) {
+        v.sort_by_key(|x| x.0);
+    }
+    v.into_iter().map(|x| x.1).collect()
+}
+
 fn soup(t: &mut Tape) -> String {
-    let mode = t.below(3);
+    let mode = t.below(4);
+    if mode == 3 {
+        return statement_soup(t);
+    }
     if mode == 2 && t.chance(40) {
         return nested_type(t);
     }
@@ -318,7 +427,7 @@ fn random_insert(t: &mut Tape) -> String {
     }
 }
 
-const MUTATION_OPS: usize = 12;
+const MUTATION_OPS: usize = 15;
 
 fn mutate_once(src: &str, t: &mut Tape, all: &[repo::RepoFile]) -> String {
     let toks = lex(src);
@@ -398,6 +507,27 @@ fn mutate_once(src: &str, t: &mut Tape, all: &[repo::RepoFile]) -> String {
                 }
             }
             out
+        }
+        // line level: statements change places (near the grammar's boundary)
+        10 | 11 | 12 => {
+            let mut lines: Vec<&str> = src.split_inclusive('\n').collect();
+            if lines.len() < 2 {
+                return format!("{src}\n{src}");
+            }
+            let i = t.below(lines.len());
+            let j = t.below(lines.len());
+            match t.below(3) {
+                0 => lines.swap(i, j),
+                1 => {
+                    let l = lines.remove(i);
+                    lines.insert(j.min(lines.len()), l);
+                }
+                _ => {
+                    let l = lines[i];
+                    lines.insert(j, l);
+                }
+            }
+            lines.concat()
         }
         // doc-line level: keeps the syntax valid, attacks the markdown handling
         _ => {
